@@ -16,11 +16,11 @@ MANIFEST = dict(
          'publish_current. Refuted-theorems keep vm_compute witnesses of the two repaired crash defects. The models are compared on every run with a '
          'real Server driven over in-memory streams (frames, ids, codes, published versions, document contents after each message, survival), with the '
          'DocumentManager on edit histories, and an implementation-side oracle written on UTF-16 code-unit arrays checks all edit ranges over small '
-         'documents from {a, e-acute, U+1F600, LF}.',
+         'documents from {a, e-acute, U+1F600, CR, LF}.',
     note=common.BASE_NOTE + 'JSON decoding is abstracted to a classification of message bodies (supplied per case by the generator), request handlers '
          'to their outcome, validateDocument to returns/panics; Go int overflow and fatal runtime errors (stack exhaustion, out of memory) are outside the '
          'model; a column inside a surrogate pair and a range whose end precedes its start are left open by the protocol (specification fixes: start of the '
-         'character / empty range at start; the oracle accepts either reading). LF is the only line separator considered.',
+         'character / empty range at start; the oracle accepts either reading). Lines end at LF, CR LF or CR.',
     design='6/C18')
 
 MAXLEN = 10 * 1024 * 1024
@@ -56,8 +56,8 @@ def from_u16(u):
     return b"".join(bytes((x & 255, x >> 8)) for x in u).decode("utf-16-le")
 
 
-def line_spans(u, crlf):
-    """[(start, end)] of the lines of u (end excludes the terminator); LF only, or LF / CRLF / CR when crlf"""
+def line_spans(u, crlf=True):
+    """[(start, end)] of the lines of u (end excludes the terminator): a line ends at LF, CR LF or a CR not followed by LF"""
     spans, start, i = [], 0, 0
     while i < len(u):
         if u[i] == 10:
@@ -72,7 +72,7 @@ def line_spans(u, crlf):
     return spans
 
 
-def positions(u, line, char, crlf=False):
+def positions(u, line, char, crlf=True):
     if line < 0:
         return [0]
     spans = line_spans(u, crlf)
@@ -85,10 +85,9 @@ def positions(u, line, char, crlf=False):
     return [idx]
 
 
-def oracle_apply(doc, rng, text, crlf=False):
-    """acceptable results of replacing rng in doc by text (first = the reading the Coq specification fixes).
-    crlf=False: LF is the only line terminator (what the mirror implements and the specification states);
-    crlf=True: LF, CRLF and CR terminate lines (LSP 3.17 text documents)."""
+def oracle_apply(doc, rng, text, crlf=True):
+    """acceptable results of replacing rng in doc by text (first = the reading the Coq specification fixes);
+    LF, CRLF and CR terminate lines (LSP 3.17 text documents)"""
     u, t = u16(doc), u16(text)
     res = []
     def add(s, e):
@@ -105,7 +104,7 @@ def oracle_apply(doc, rng, text, crlf=False):
     return res
 
 
-def apply_all_readings(wants, r, text, crlf=False):
+def apply_all_readings(wants, r, text, crlf=True):
     """one incremental change applied to every acceptable previous content (bytes); a previous content that is not
     well-formed UTF-8 (a corrupted mirror, reported when it appeared) cannot be judged further: []"""
     nw = []
@@ -129,8 +128,8 @@ def valid_utf8(b):
 # --------------------------------------------------------------------------------------------------
 # generators
 
-ALPHA = ["a", "é", "😀"]
-TEXTS = ["", "X", "é", "😀", "\n", "a\nb", "é\n😀", "SELECT 1;", "  ", "x😀y\n\nz"]
+ALPHA = ["a", "é", "😀", "\r"]
+TEXTS = ["", "X", "é", "😀", "\n", "a\nb", "é\n😀", "SELECT 1;", "  ", "x😀y\n\nz", "\r", "\r\n", "a\r\nb\rc"]
 
 
 def rand_doc(rng, small=False):
@@ -145,7 +144,7 @@ def rand_doc(rng, small=False):
 
 
 def rand_range(rng, doc):
-    lines = doc.split("\n")
+    lines = re.split("\r\n|\n|\r", doc)
     def pos(kind):
         if kind == "in":
             l = rng.randrange(len(lines))
@@ -393,7 +392,7 @@ REQ_METHODS = ["textDocument/hover", "textDocument/completion", "textDocument/si
                "textDocument/documentSymbol", "textDocument/codeAction", "initialize", "shutdown"]
 
 
-def gen_conversation(rng, nmsgs, uris=("file:///a.sql", "file:///b é😀.sql")):
+def gen_conversation(rng, nmsgs, uris=("file:///a.sql", "file:///b é😀.sql"), allow_exit=True):
     c = Conv()
     docs = {}       # uri -> current text per the client's own view (strict reading)
     version = {}
@@ -472,6 +471,8 @@ def gen_conversation(rng, nmsgs, uris=("file:///a.sql", "file:///b é😀.sql"))
                 c.notif(meth, raw_params=rng.choice(raws), op="badparams")
         else:
             kind = rng.choice(["garbage", "short", "mistyped", "nomethod_id", "nomethod", "array", "nullid"])
+            if kind == "nullid" and getattr(c, "null_used", False):
+                kind = "nomethod"
             idv = c.fresh(rng.randint(1000, 2000))
             if kind == "garbage":
                 c.add(rng.choice([b"{not json", b"\xff\xfe{}", b'{"jsonrpc":"2.0","id":1,"method":"x"', b"nul", b'{"id":1,"method":"x"}}']), kind="garbage")
@@ -486,8 +487,10 @@ def gen_conversation(rng, nmsgs, uris=("file:///a.sql", "file:///b é😀.sql"))
             elif kind == "array":
                 c.add(rng.choice(['[1,2]', '"str"', '12', 'null', 'true']), kind="array")
             else:
-                c.add('{"jsonrpc":"2.0","id":null,"method":"foo"}', kind="notif", method="foo")
-    if rng.random() < 0.3:
+                # an id that is present but null: a request, answered with id null
+                c.null_used = True
+                c.add(rng.choice(['{"jsonrpc":"2.0","id":null,"method":"foo"}', '{"jsonrpc":"2.0","id":null,"method":"shutdown"}']), kind="request", id=None, method="foo")
+    if allow_exit and rng.random() < 0.3:
         c.req("shutdown")
         c.notif("exit")
         c.req("textDocument/hover", {"textDocument": {"uri": uris[0]}, "position": {"line": 0, "character": 0}})
@@ -643,7 +646,7 @@ def run(tier):
     sample = []
     sweep_desc = []
     for cfg in sweeps:
-        cfg = dict(cfg, alphabet=[hx(a) for a in ALPHA], texts=[hx(t) for t in ["X", "", "é\n😀", "😀"]], seed=common.seed(), emit=120 if quick else 250, max_bad=5)
+        cfg = dict(cfg, alphabet=[hx(a) for a in ALPHA], texts=[hx(t) for t in ["X", "", "é\n😀", "😀", "\r", "a\r\nb"]], seed=common.seed(), emit=120 if quick else 250, max_bad=5)
         p = common.vh(["lspsweep"], input=json.dumps(cfg) + "\n", timeout=3000)
         if p.returncode != 0 or not p.stdout.strip():
             rp.violation({"kind": "harness", "cmd": "lspsweep", "detail": p.stderr[-2000:]}, "lspsweep_harness", no_input=True)
@@ -693,11 +696,16 @@ def run(tier):
     convs = []
     for i in range(90 if quick else 600):
         convs.append(gen_conversation(rng, rng.randint(4, 40 if quick else 90)) + ({"freeze": False, "reset_at": []},))
-    for i in range(1 if quick else 12):
+    for i in range(2 if quick else 12):
         # beyond the limiter window, deterministically (frozen window, forced restarts)
         n = rng.randint(110, 140) if quick else rng.randint(120, 260)
-        resets = sorted(rng.sample(range(1, n), rng.randint(0, 2)))
-        convs.append(gen_conversation(rng, n) + ({"freeze": True, "reset_at": resets},))
+        resets = sorted(rng.sample(range(1, n), rng.randint(0, 2))) if i % 2 else []
+        c, uris = gen_conversation(rng, n, allow_exit=False)
+        # requests of every kind at the very end: dropped by the limiter unless a restart is near
+        c.req("shutdown"); c.req("foo/bar"); c.req("textDocument/hover", {"textDocument": {"uri": uris[0]}, "position": {"line": 0, "character": 0}})
+        c.notif("textDocument/didSave", {"textDocument": {"uri": uris[0]}}, uri=uris[0], op="save")
+        c.req("initialize", {"capabilities": {}})
+        convs.append((c, uris, {"freeze": True, "reset_at": resets}))
     inp = "".join(json.dumps(dict(frames=[hx(frame(m["body"])) for m in c.msgs], uris=uris, **opt)) + "\n" for c, uris, opt in convs)
     p = common.vh(["lspserve"], input=inp, timeout=1800)
     cr = [json.loads(l) for l in p.stdout.splitlines() if l.strip()]
@@ -801,7 +809,7 @@ def run(tier):
     rp.assumptions = ["JSON decoding abstracted: message bodies are classified (request/notification/malformed) by the generator; encoding/json itself is trusted",
                       "request handlers abstracted to result/error/panic; validateDocument to returns/panics",
                       "Go int overflow and fatal runtime errors (stack exhaustion, OOM) not modelled",
-                      "LF is the only line separator; columns inside a surrogate pair and inverted ranges are under-specified by the protocol (oracle accepts both readings)"]
+                      "columns inside a surrogate pair and inverted ranges are under-specified by the protocol (oracle accepts both readings)"]
     return rp.finish()
 
 
@@ -849,7 +857,6 @@ def gen_histories(rng, n):
 def check_history(ops, steps):
     """python oracle, step by step relative to the implementation's own previous content"""
     cur = {}
-    cr_note = None
     for i, o in enumerate(ops):
         if i >= len(steps):
             return {"class": "died", "what": "history stopped at step %d" % i, "step": i}
@@ -871,21 +878,16 @@ def check_history(ops, steps):
                     return {"class": "mirror", "what": "change of a document that is not open created it", "step": i}
                 continue
             want = [cur[u][1]]
-            want_cr = [cur[u][1]]
             wv = o["version"]
             for ch in o["changes"]:
                 t = bytes.fromhex(ch["hex"])
                 if ch["range"] is None:
-                    want, want_cr = [t], [t]
+                    want = [t]
                 elif all(valid_utf8(w) for w in want) and valid_utf8(t):
                     want = apply_all_readings(want, ch["range"], t.decode())
-                    want_cr = apply_all_readings(want_cr, ch["range"], t.decode(), crlf=True) if want_cr is not None else None
                 else:
                     want = None   # ill-formed UTF-8: the protocol rule does not apply; only survival and the model are checked
                     break
-            if want is not None and st["present"] and bytes.fromhex(st["hex"]) in want and want_cr is not None and bytes.fromhex(st["hex"]) not in want_cr:
-                cr_note = {"class": "mirror_cr", "what": "step %d: content %r; with CR / CRLF as line terminators the protocol rule gives %r" % (
-                    i, bytes.fromhex(st["hex"]).decode("utf-8", "replace"), [w.decode("utf-8", "replace") for w in want_cr]), "step": i}
         if not st["present"]:
             return {"class": "mirror", "what": "document absent after %s" % o["op"], "step": i}
         got = bytes.fromhex(st["hex"])
@@ -895,7 +897,7 @@ def check_history(ops, steps):
         if st["version"] != wv:
             return {"class": "version", "what": "step %d: version %d, expected %d" % (i, st["version"], wv), "step": i}
         cur[u] = (st["version"], got)
-    return cr_note
+    return None
 
 
 def uri_term(u):
@@ -926,10 +928,13 @@ def history_term(ops, steps):
 # sweep plan
 
 def sweep_plan(tier):
+    """documents = 1..max_lines rows joined by LF, each row <= max_chars characters from {a, é, U+1F600, CR}
+    (so CR LF, lone CR and CR CR LF all occur); all ranges with every coordinate in [-1, max+1]"""
     if tier == "quick":
-        # documents <= 3 lines x <= 4 characters: every 997th document, all ranges; plus all documents <= 2 lines x <= 2 characters
-        return [dict(max_lines=3, max_chars=4, stride=997), dict(max_lines=2, max_chars=2, stride=1)]
-    return [dict(max_lines=3, max_chars=3, stride=1), dict(max_lines=2, max_chars=4, stride=1), dict(max_lines=3, max_chars=4, stride=13)]
+        # every 25999th document of 3 x 4 (39.8 M documents), all documents of 2 x 2
+        return [dict(max_lines=3, max_chars=4, stride=25999), dict(max_lines=2, max_chars=2, stride=1)]
+    return [dict(max_lines=3, max_chars=2, stride=1), dict(max_lines=2, max_chars=3, stride=1), dict(max_lines=3, max_chars=3, stride=7),
+            dict(max_lines=2, max_chars=4, stride=2), dict(max_lines=3, max_chars=4, stride=997)]
 
 
 # --------------------------------------------------------------------------------------------------
@@ -1082,19 +1087,14 @@ def check_conversation(c, uris, opt, res, stats, lens_seen):
                     probs.append({"class": "mirror", "what": "%s: change of a document that is not open created a mirror" % where})
             else:
                 want = [cur[u][1]]
-                want_cr = [cur[u][1]]
                 for r, text, _ in m["changes"]:
                     stats["edits"] += 1
                     if r is None:
-                        want, want_cr = [text.encode()], [text.encode()]
+                        want = [text.encode()]
                     else:
                         want = apply_all_readings(want, r, text)
-                        want_cr = apply_all_readings(want_cr, r, text, crlf=True)
                 if not want:
                     want = None
-                if got is not None and want and want_cr and got[1] in want and got[1] not in want_cr:
-                    probs.append({"class": "mirror_cr", "what": "%s: mirror is %r; with CR / CRLF as line terminators the protocol rule gives %r (before: %r)" % (
-                        where, got[1].decode("utf-8", "replace"), [w.decode("utf-8", "replace") for w in want_cr], cur[u][1].decode("utf-8", "replace"))})
             if want is not None:
                 if got is None:
                     probs.append({"class": "mirror", "what": "%s: document not mirrored" % where})
@@ -1195,7 +1195,9 @@ def check_stream(c, uris, frames, res, lens_seen):
     for n, _ in msgs:
         lens_seen.add(n)
     evs, resps, pubs = out_events(msgs, idn, probs, "stream")
-    known_ids = {idkey(m["id"]) for m in c.msgs if m.get("id") is not None}
+    def has_id(m):
+        return m.get("id") is not None or (m["kind"] == "request" and "id" in m)
+    known_ids = {idkey(m["id"]) for m in c.msgs if has_id(m)}
     seen = {}
     for r in resps:
         if r[0] not in known_ids:
@@ -1203,7 +1205,7 @@ def check_stream(c, uris, frames, res, lens_seen):
         seen[r[0]] = seen.get(r[0], 0) + 1
     cnt = {}
     for m in c.msgs:
-        if m.get("id") is not None:
+        if has_id(m):
             cnt[idkey(m["id"])] = cnt.get(idkey(m["id"]), 0) + 1
     for k, v in seen.items():
         if v > cnt.get(k, 0):
@@ -1276,7 +1278,7 @@ def oversize_probe():
 # id fidelity probe: the response must carry the request's id (numbers compared by exact value)
 
 RAW_IDS = ['9007199254740993', '-9007199254740993', '18446744073709551616', '1e2', '1.5', '0.1', '-0', '4294967296', '-1',
-           '123456789012345678901234567890', '"9007199254740993"', '"1e2"', '9007199254740992', '1.0']
+           '123456789012345678901234567890', '"9007199254740993"', '"1e2"', '9007199254740992', '1.0', 'null', '1E+400', '""', '"é😀<&>"']
 
 
 def id_probe():
@@ -1293,6 +1295,10 @@ def id_probe():
         want = json.loads(raw, parse_int=Decimal, parse_float=Decimal)
         got = [j.get("id") for n, j in msgs if isinstance(j, dict) and "method" not in j]
         same = len(got) == 1 and type(got[0]) == type(want) and got[0] == want
+        # numbers and null are echoed literally
+        rawout = b"".join(bytes.fromhex(x["out"]) for x in sn)
+        if same and not raw.startswith('"') and (b'"id":' + raw.encode() + b',') not in rawout:
+            same = False
         if err or not same:
             idv = int(want) if isinstance(want, Decimal) and want == want.to_integral_value() else None
             probs.append({"class": "response", "id": idv, "what": "request id %s answered with id(s) %s" % (raw, [str(g) for g in got]),
@@ -1310,8 +1316,6 @@ def matches_known(prob, known_sigs):
             idv = prob.get("id")
             if isinstance(idv, int) and abs(idv) > 2 ** 53:
                 return k
-        if sig.get("kind") == "cr_line_terminator" and prob.get("class") == "mirror_cr":
-            return k
     return None
 
 
@@ -1324,9 +1328,7 @@ def witness_fails(w):
     if kind == "edit":
         p = common.vh(["lspedit"], input=json.dumps({"doc": w["doc"], "range": w["range"], "text": w["text"]}) + "\n")
         r = json.loads(p.stdout.splitlines()[0])
-        want = r.get("want") or []
-        if w.get("crlf"):
-            want = [x.encode().hex() for x in oracle_apply(bytes.fromhex(w["doc"]).decode(), w["range"], bytes.fromhex(w["text"]).decode(), crlf=True)]
+        want = [x.encode().hex() for x in oracle_apply(bytes.fromhex(w["doc"]).decode(), w["range"], bytes.fromhex(w["text"]).decode())]
         ok = (not r.get("panic")) and r["got"] in want
         return (not ok), ("panic: " + r["panic"]) if r.get("panic") else "got %s want %s" % (r["got"], want)
     if kind == "frames":
